@@ -19,6 +19,7 @@ REMOTE = 1000000
 DEFAULT_NAMES = {"root": ("nordicsemi.com", "nRF54H20_sample_root"), "application": ("nordicsemi.com", "nRF54H20_sample_app"),
                  "radio": ("nordicsemi.com", "nRF54H20_sample_rad"), "top": ("nordicsemi.com", "nRF54H20_nordic_top"),
                  "secdom": ("nordicsemi.com", "nRF54H20_sec"), "sysctrl": ("nordicsemi.com", "nRF54H20_sys")}
+CUSTOM_NAMES2 = {"root": ("R&D.acme.example", "acme_root_<v2>"), "application": ("Tom's & Co", "app>1"), "radio": ("a&b", "it's <radio>")}
 CUSTOM_NAMES = {"root": ("ACME Corp", "acme root"), "application": ("ACME Corp", "acme app"), "radio": ("zażółć.example", "radio ü")}
 
 
@@ -110,12 +111,16 @@ def run_config(ctx, tr, build, scn, k, via, shared=None):
     # odd k: ONE artifacts folder for the whole run, children regenerated under the SAME file names (what an incremental build
     # does); even k: a fresh folder and names that carry k
     d = shared if (shared is not None and k % 2) else ctx.tmp("c19")
+    if k % 4 == 0:   # a fresh folder whose path carries characters that mark-up or shell processing would treat specially
+        d = d / "R&D <build> it's"
+        d.mkdir()
     art = str(d) + "/"
     data = {"artifacts_folder": art, "sysbuild": {"config": {}}}
     names = []
     if scn["tmpl"] == "root":
         cust = scn["custom"]
-        pick = lambda r: (CUSTOM_NAMES if cust and r in CUSTOM_NAMES else DEFAULT_NAMES)[r]  # noqa: E731
+        table = CUSTOM_NAMES2 if k % 3 == 0 else CUSTOM_NAMES   # names are arbitrary text: every third custom set is punctuated
+        pick = lambda r: (table if cust and r in table else DEFAULT_NAMES)[r]  # noqa: E731
         if cust:
             for role, r in (("ROOT", "root"), ("APP_LOCAL_1", "application"), ("RAD_LOCAL_1", "radio")):
                 data["sysbuild"]["config"][f"SB_CONFIG_SUIT_MPI_{role}_VENDOR_NAME"] = pick(r)[0]
